@@ -72,7 +72,7 @@ func propConfigs() map[string]*PropConfig {
 	add(&PropConfig{ID: "C03", Prefix: "VH_C03_", StrBytes: 8, Sets: []HarnessSet{hfiles("fast", fastLib, "fast/c03_gen.go")},
 		Explain: "the real Comp.convert is executed for every ordered pair of numeric basic kinds (non-constant operand) and a sample of constant operands; the returned closure / constant is compared with Go's conversion T(x) for all operand values for which the specification defines the result"})
 	add(&PropConfig{ID: "C08", Prefix: "VH_C08_", StrBytes: 8, Sets: []HarnessSet{hfiles("fast", fastLib, "fast/c08_index_gen.go", "fast/c08.go", "fast/c08_builtin.go")},
-		Redirect: map[string]string{"(*github.com/cosmos72/gomacro/fast.Comp).expr1": "vhModelExpr1"},
+		Redirect: map[string]string{"(*github.com/cosmos72/gomacro/fast.Comp).expr1": "vhModelExpr1", "(*github.com/cosmos72/gomacro/fast.Comp).LookupFieldOrMethod": "vhModelLookupFieldOrMethod", "(*github.com/cosmos72/gomacro/fast.Comp).LookupMethod": "vhModelLookupMethod"},
 		Explain: "the real compileAppend/compileCopy/compileLen/compileCap/compileDelete + Comp.call_builtin on harness-supplied argument expressions (Comp.expr1 is a table lookup); the real vectorIndex, stringIndex, mapIndex, mapIndex1, slice2, slice3 and sliceString compile functions are executed per element kind and constness shape on symbolic slices, strings and maps; the returned closures are compared with Go's indexing / slicing / map reads including panic equivalence"})
 	add(&PropConfig{ID: "C22", Prefix: "VH_C22_", StrBytes: 8, Sets: []HarnessSet{hfiles("ast2", "ast2/lib_ast2.go", "ast2/c22_gen.go")},
 		Explain: "for each node wrapper of package ast2 a node with symbolic tokens, strings and flags and every presence/length combination of its children is copied with New + Get(i) + Set(i) for i < Size and compared field by field with the original"})
